@@ -600,6 +600,17 @@ def r08_5(prog, rep):
                         tested = True
                 if not tested:
                     continue
+                # a reset to the *nearer* end of the range is a clamp, not a wrap: `if (m <= 0) m = 1` puts an out-of-range month on the
+                # first one (the tail of the SHIFT look-back), it does not go round the year; a wrap resets to the far end
+                if nn["op"] == "=":
+                    si_ = cfg.blocks[preds[0]].succs.index(b) if b in cfg.blocks[preds[0]].succs else None
+                    held = cond_atoms(c, si_ == 0) if si_ is not None else []
+                    low = any(len(a) == 5 and ((a[0] in ("<", "<=") and a[1] == mt and int_value(a[4]) in (0, 1)) or
+                                                (a[0] == "==" and mt in (a[1], a[2]) and 0 in (int_value(a[3]), int_value(a[4])))) for a in held)
+                    high = any(len(a) == 5 and a[0] in ("<", "<=") and a[2] == mt and int_value(a[3]) in (12, 13) for a in held)
+                    v_ = int_value(nn["r"])
+                    if (v_ == 1 and low and not high) or (v_ == 12 and high and not low):
+                        continue
                 n += 1
                 k0 = "%s/month-wrap %s" % (f.name, mt)
                 seen[k0] = seen.get(k0, 0) + 1
